@@ -194,6 +194,25 @@ PROPS = {
         "level_note": "Trusted: Coq kernel, extraction, scripted-server harness. Modelled, not verified: xClient.Call, xClient.SendRaw, "
                       "selectClient/getCachedClient/removeClient. Fail-backup: exercised, not modelled.",
     },
+    "C17": {
+        "rule": "exhaustive outcome vectors over {ok, service error, connection lost, slow} for 1..3 (thorough 1..4) scripted servers x "
+                "every completion order (slow servers last; quick: a third of the n=3 space), each run through Broadcast, Fork and Inform "
+                "with completion order forced by per-server answer delays; distinct = distinct model-input line; non-trivial = at least "
+                "2 servers",
+        "theorems": ["C17_broadcast_success_iff_all", "C17_fork_success_iff_some", "C17_inform_receipts",
+                     "C17_reply_from_a_successful_server", "C17_reply_present"],
+        "assumptions": ["the caller's context does not expire during the call except through a scripted slow server",
+                        "servers whose dial fails are not 'contacted' (Broadcast/Fork/Inform skip them)",
+                        "completion orders are forced by 35 ms answer slots (wall clock)"],
+        "trusted": ["client.ConnFactories[\"vsrv\"] scripted servers with per-server delays"],
+        "level_text": "Theorems for every number of contacted servers, every outcome vector and every completion order (permutation): "
+                      "Broadcast reports success iff all succeeded, Fork iff at least one did, Inform returns one receipt per server with "
+                      "that server's own reply and own error, and a reported success carries a reply produced by a server that succeeded. "
+                      "The model mirrors the done-channel loops with their early exits and is compared with the real XClient under forced "
+                      "completion orders.",
+        "level_note": "Trusted: Coq kernel, extraction, scripted-server harness and its timing slots. Modelled, not verified: "
+                      "xClient.Broadcast/Fork/Inform, errors.MultiError.",
+    },
     "C12": {
         "rule": "exhaustive weight vectors (quick: n<=3,w<=4 and n=4,w<=2; thorough: n<=4,w<=6) from a random window "
                 "offset, round-robin sets n=0..8 from every cursor offset, and random update/selection histories over a "
